@@ -273,6 +273,10 @@ type Output struct {
 	Setup    string         `json:"setup,omitempty"`
 }
 
+// every way a registration can fail to be accepted: failure result (with / without a transaction error code),
+// transport error, and malformed replies (no error, but not a BranchRegisterResponse value)
+var regFailures = []string{"failcode", "failcode-errcode", "error", "nil-reply", "wrong-type", "wrong-type-failed", "pointer-reply"}
+
 var malformed = []string{"{not json", "{\"actionContext\":5}", "[1]", "{\"actionContext\":null}", "\"str\""}
 var noctx = []string{"{}", "{\"other\":1}", "null", "{\"actionContext\":{}}"}
 
@@ -370,8 +374,8 @@ func Run(args map[string]string) {
 			if sameAction {
 				pc.Action = action0
 			}
-			if r.Chance(1, 5) && forced == nil {
-				pc.RegMode = []string{"failcode", "error"}[r.Intn(2)]
+			if r.Chance(1, 4) && forced == nil {
+				pc.RegMode = regFailures[r.Intn(len(regFailures))]
 			}
 			if _, ok := sameName[shape]; ok {
 				pc.Before = append([]string{}, seenSameName...)
